@@ -405,6 +405,28 @@ fn perm_one(args: &[String]) {
     println!("{rec}");
 }
 
+/// perm-sources <count> <seed> <nperms> <out.ndjson>: the programs of the permutation family (constants, structures and
+/// functions that depend on each other, in several declaration orders) as cases of the pipeline checks (C02 / C03 / C13).
+/// No verdict is attached: whatever the order, the compilation has to end in success or in a failure with a diagnostic.
+fn perm_sources(args: &[String]) {
+    use std::io::Write;
+    let count: usize = args[0].parse().unwrap();
+    let seed: u64 = args[1].parse().unwrap();
+    let nperms: usize = args[2].parse().unwrap();
+    let mut f = std::io::BufWriter::new(std::fs::File::create(&args[3]).expect("create"));
+    for i in 0..count {
+        let p = perms::Program::generate(seed, i);
+        let n = p.len();
+        let shared = p.shared_names(seed, i);
+        for (k, order) in perm_orders(seed, i, n, nperms).iter().enumerate() {
+            let src = p.render_shared(order, &shared);
+            writeln!(f, "{}", json!({"id": format!("xperm{i}-{k}"), "kind": "xperm", "wasm": false,
+                                     "origin": format!("permutation family {seed}/{i} order {k}"),
+                                     "mods": [{"name": "perm.pn", "src": src}]})).unwrap();
+        }
+    }
+}
+
 fn spawn_self(args: &[String]) -> Result<String, String> {
     let exe = std::env::current_exe().map_err(|e| e.to_string())?;
     let out = std::process::Command::new(exe).args(args).output().map_err(|e| e.to_string())?;
@@ -612,6 +634,7 @@ fn main() {
         "hist-one" => hist_one(&args[1..]),
         "record-splits" => record_splits(&args[1..]),
         "record-perms" => record_perms(&args[1..]),
+        "perm-sources" => perm_sources(&args[1..]),
         _ => usage(),
     }
 }
